@@ -10,6 +10,7 @@ import (
 	"net/http"
 	"net/url"
 	"strings"
+	"sync"
 	"syscall"
 	"time"
 
@@ -233,6 +234,7 @@ func NewUpstream(addr string, opt Opt) (_ Upstream, err error) {
 		var t http.RoundTripper
 		var addonCloser io.Closer
 		var h3Socket io.Closer // socket of the quic transport, the transport will not close it
+		var conns *connTracker // connections of the http transport, it cannot close those that are in use
 		if opt.EnableHTTP3 {
 			if addrURL.Scheme == "http" {
 				return nil, errors.New("invalid scheme http in h3 upstream")
@@ -265,9 +267,14 @@ func NewUpstream(addr string, opt Opt) (_ Upstream, err error) {
 				MaxResponseHeaderBytes: 4 * 1024,
 			}
 		} else {
+			conns = new(connTracker)
 			t1 := &http.Transport{
 				DialContext: func(ctx context.Context, network, addr string) (net.Conn, error) {
-					return dialer.DialContext(ctx, dialNetworkTcpOrUnix(dialAddr), dialAddr)
+					c, err := dialer.DialContext(ctx, dialNetworkTcpOrUnix(dialAddr), dialAddr)
+					if err != nil {
+						return nil, err
+					}
+					return conns.track(c)
 				},
 				TLSClientConfig:     opt.TLSConfig,
 				TLSHandshakeTimeout: tlsHandshakeTimeout,
@@ -303,7 +310,7 @@ func NewUpstream(addr string, opt Opt) (_ Upstream, err error) {
 		}
 		if t1, ok := t.(*http.Transport); ok {
 			// Don't leave keep-alive connections open after Close.
-			return &upstreamWithClosers{Upstream: u, cs: []io.Closer{closerFunc(t1.CloseIdleConnections)}}, nil
+			return &upstreamWithClosers{Upstream: u, cs: []io.Closer{closerFunc(t1.CloseIdleConnections), conns}}, nil
 		}
 		return u, nil
 	case "quic", "doq":
@@ -387,6 +394,53 @@ func (u *upstreamWithClosers) Close() error {
 		c.Close()
 	}
 	return err
+}
+
+// connTracker remembers the connections that were dialed and are not closed
+// yet. Close closes them all, and every connection that comes later.
+type connTracker struct {
+	m      sync.Mutex
+	closed bool
+	conns  map[*trackedConn]struct{}
+}
+
+type trackedConn struct {
+	net.Conn
+	t *connTracker
+}
+
+func (t *connTracker) track(c net.Conn) (net.Conn, error) {
+	t.m.Lock()
+	defer t.m.Unlock()
+	if t.closed {
+		c.Close()
+		return nil, transport.ErrClosedTransport
+	}
+	if t.conns == nil {
+		t.conns = make(map[*trackedConn]struct{})
+	}
+	tc := &trackedConn{Conn: c, t: t}
+	t.conns[tc] = struct{}{}
+	return tc, nil
+}
+
+func (t *connTracker) Close() error {
+	t.m.Lock()
+	t.closed = true
+	conns := t.conns
+	t.conns = nil
+	t.m.Unlock()
+	for c := range conns {
+		c.Conn.Close()
+	}
+	return nil
+}
+
+func (c *trackedConn) Close() error {
+	c.t.m.Lock()
+	delete(c.t.conns, c)
+	c.t.m.Unlock()
+	return c.Conn.Close()
 }
 
 type closerFunc func()
